@@ -587,3 +587,7 @@ PROPS["C12"]["proofs"] = PROPS["C12"]["proofs"] + ["Bmc.Proofs.EndToEnd.Discover
 PROPS["C12"]["claim"] += (" generated_determineCipherSuite_first_preference (Proofs/EndToEnd/DiscoveryC12.lean): against a BMC serving the specification's encoding "
                           "of any well-formed record list, a proposal made by determineCipherSuite AS TRANSLATED ON THIS RUN (two or more preferences) is the first "
                           "preference some record advertises.")
+for _p in ("C03", "C10"):
+    PROPS[_p]["proofs"] = PROPS[_p]["proofs"] + ["Bmc.Proofs.EndToEnd.SessionC03"]
+    PROPS[_p]["claim"] += (" END TO END: generated_loop_datagrams (Proofs/EndToEnd/SessionC03.lean) — what buildAndSend AS TRANSLATED ON THIS RUN hands to the transport is, "
+                           "datagram by datagram, the specification-shaped packet for the caller's command (nthDatagram), as many as the documented contract says.")
